@@ -682,7 +682,41 @@ def check_c15(pid, tier, replay=None):
         chk.violation("Lean obligation no longer checks: %s" % name,
                       {"kind": "obligation", "obligation": name, "detail": detail}, no_input=True)
     modes = [0] if tier == "quick" else [0, 1, 2]
+    if replay:
+        rp = json.load(open(replay))
+        if len(rp.get("args", [])) >= 6:      # a drv_hash history (jumped totals)
+            a = rp["args"]
+            drv2 = vlib.harness_bin("drv_hash", extra_src=vlib.TRAMP_SRC)
+            r = hashcheck.run_one(drv2, a[0], a[1], int(a[2]), int(a[3]), int(a[4]), int(a[5]), int(a[6]) if len(a) > 6 else 0)
+            bad = [m for m in r["monitors"] if "C15-" in m or "C01-" in m] or r["diffs"]
+            print("replay: monitors=%s diffs=%d" % (r["monitors"][:3], len(r["diffs"])))
+            return 1 if bad else 0
     impl_res, total_bytes = big_sweep(chk, modes, replay)
+    if not replay:
+        # every crossing (2^29, 2^32, 2^32+2^29, 2^35, 2^60) on every family, cheaply: the harness jumps the running total of
+        # idle contexts (op `T`), the model does the same; all later paddings / totals must agree line by line
+        drv2 = vlib.harness_bin("drv_hash", extra_src=vlib.TRAMP_SRC)
+        nops2 = 2500 if tier == "quick" else 40000
+        jumps = 0
+        for r in hashcheck.sweep(chk, drv2, nops2, 6000, 0, [chk.seed * 13 + 5], families=hashcheck.FAMILIES):
+            key = "%s/%s" % (r["alg"], r["fam"])
+            mine = [m for m in r["monitors"] if "C15-" in m or "C01-" in m or m.startswith("CRASH")]
+            ok = not mine and not r["diffs"]
+            jumps += sum(1 for l in r.get("impl_lines", []) if l.startswith("ok tot="))
+            chk.oblige("jumped-total correspondence %s" % key, ok, "ops=%d diffs=%d monitors=%d" % (r["ops"], len(r["diffs"]), len(mine)))
+            if mine:
+                kind = mine[0].split()[1] if len(mine[0].split()) > 1 else mine[0]
+                chk.violation("%s in %s" % (kind, key), {"kind": "history", "family": key, "args": r["args"], "monitor": mine[:3],
+                                                         },
+                              match={"family": key, "monitor": kind})
+            elif r["diffs"]:
+                chk.violation("length arithmetic differs from the model after a jump of the running total in %s" % key,
+                              {"kind": "history", "family": key, "args": r["args"], "first_disagreement": r["diffs"][0],
+                               "note": "drv_hash op history (seed-deterministic); op `T c d` adds d bytes (whole blocks) to the running total of "
+                                       "idle context c in the implementation and in the model; by theorem C15 the model's padding is the standard one for every total below 2^61",
+                               },
+                              match={"family": key, "monitor": "jump-correspondence"})
+        chk.cov["jumped_totals"] = jumps
     chk.cov["evaluations"] = len(impl_res)
     chk.cov["distinct_nontrivial"] = len(impl_res)
     chk.cov["bytes_hashed_by_implementation"] = total_bytes
@@ -1056,7 +1090,115 @@ def check_c19(pid, tier, replay=None):
                       "dynamic: trampoline calls of 390 entry points x length classes comparing callee-saved registers, DF, MXCSR, x87 CW and a canary above the frame")
 
 
-CHECKS = {"C19": check_c19, "C13": check_wrap, "C16": check_wrap, "C17": check_c17, "C01": check_hash, "C06": check_hash, "C11": check_hash, "C15": check_c15, "C12": check_c12, "C09": check_c09, "C20": check_c20, "C08": check_c08, "C14": check_c14, "C05": check_mh, "C10": check_mh,
+def check_c18(pid, tier, replay=None):
+    """no hidden shared state: static clause proved over the translated objects (X86Abs tables), binding clause proved
+    over the regenerated resolvers (BindRace), concurrency clause by threaded correspondence (drv_threads)"""
+    import subprocess, gen_dispatch, build_repo
+    chk = vlib.Check(pid, tier)
+    b, rep, out = abi_generate("default")
+    gen_dispatch.main(quiet=True)
+    chk.oblige("translator: every function of the default build has a certificate (static stores are found by the same pass)", not rep["fail"], str(list(rep["fail"].items())[:3]))
+    lean_failed = vlib.lean_obligations(chk, "IsalVerif.Props.C18", C18_THMS + ["IsalVerif.Props.C19.checked"], extra_targets=["IsalVerif.Props.C18Bind"])
+    if not lean_failed:
+        ax, raw = vlib.print_axioms("IsalVerif.Props.C18Bind", ["IsalVerif.Props.C18.c18_bind_race", "IsalVerif.Props.C18.c18_bind_progress",
+                                                               "IsalVerif.Props.C18.c18_stub_shape", "IsalVerif.BindRace.reach_inv"])
+        for t, a in ax.items():
+            good = a is not None and set(a) <= vlib.ALLOWED_AXIOMS
+            chk.oblige("lean:" + t, good, "axioms=%s" % (a,))
+            if not good:
+                lean_failed.append((t, "axioms=%s" % (a,)))
+    # the address of a writable static datum taken into a register (writes through such a pointer are outside the static clause):
+    lea_syms = sorted({x[-1] if isinstance(x[-1], str) else str(x) for x in rep.get("static_lea", [])})
+    chk.cov["writable_symbols_whose_address_is_taken"] = len(lea_syms)
+    # harness: link with a map so that every writable input section of every library object can be snapshotted
+    import hashlib
+    src = os.path.join(vlib.HARNESS, "drv_threads.c")
+    exe = os.path.join(b, "drv_threads." + hashlib.sha256(open(src, "rb").read()).hexdigest()[:12])
+    mapf = exe + ".map"
+    if not os.path.exists(exe) or not os.path.exists(mapf):
+        r = subprocess.run(["gcc", "-O1", "-g", "-pthread", "-no-pie", "-Wno-deprecated-declarations", "-I", os.path.join(b, "src", "include"),
+                            src, os.path.join(b, "isa-l_crypto.a"), "-Wl,-Map=" + mapf, "-o", exe + ".tmp"], capture_output=True, text=True)
+        if r.returncode:
+            raise RuntimeError("drv_threads build failed: " + r.stderr[-1500:])
+        os.replace(exe + ".tmp", exe)
+    regions = []
+    txt = open(mapf).read().replace("\n                ", " ")
+    for m in re.finditer(r"^ (\.(?:data|bss|tbss|tdata)[\w.]*)\s+0x([0-9a-f]+)\s+0x([0-9a-f]+)\s+\S*isa-l_crypto\.a\((\w+\.o)\)", txt, re.M):
+        if int(m.group(3), 16):
+            regions.append((int(m.group(2), 16), int(m.group(3), 16), "%s:%s" % (m.group(4), m.group(1))))
+    nm = subprocess.run(["nm", exe], capture_output=True, text=True).stdout
+    cells = [(int(l.split()[0], 16), 8, l.split()[2]) for l in nm.split("\n") if len(l.split()) == 3 and l.split()[2].endswith("_dispatched")]
+    sf = os.path.join(vlib.scratch(), "statics.txt")
+    with open(sf, "w") as fh:
+        for a, sz, n in regions + cells:
+            fh.write("%x %d %s\n" % (a, sz, n))
+    chk.oblige("link map: writable input sections of library objects found", len(regions) > 50 and len(cells) >= 60, "regions=%d cells=%d" % (len(regions), len(cells)))
+    nthreads = [2, 8, 32] if tier == "quick" else [2, 3, 8, 16, 32, 64]
+    rounds = 12 if tier == "quick" else 120
+    refs, nrun, found, bindings, straddle = {}, 0, False, {}, 0
+
+    def ref(seed, k):
+        if (seed, k) not in refs:
+            o = subprocess.run([exe, "ref", str(seed), str(k)], capture_output=True, text=True).stdout
+            refs[(seed, k)] = o.split()[2] if o.startswith("DIGEST") else "?"
+        return refs[(seed, k)]
+    if replay:
+        rp = json.load(open(replay))
+        nthreads, rounds = [int(rp["args"][0])], 1
+        seeds_override = int(rp["args"][1])
+    for n in nthreads:
+        for rd in range(rounds):
+            seed = (seeds_override if replay else chk.seed * 1000 + rd)
+            r = subprocess.run([exe, "race", str(n), str(seed), sf], capture_output=True, text=True, timeout=600)
+            nrun += 1
+            lines = r.stdout.split("\n")
+            digs = {int(l.split()[1]): l.split()[2] for l in lines if l.startswith("DIGEST")}
+            mons = [l for l in lines if l.startswith("MONITOR")]
+            wrong = [k for k in range(n) if digs.get(k) != ref(seed, k)]
+            for l in lines:
+                if l.startswith("CELL"):
+                    bindings.setdefault(l.split()[1], set()).add(l.split()[2])
+                if l.startswith("STATICS"):
+                    straddle = max(straddle, int(re.search(r"straddling_a_cache_line=(\d+)", l).group(1)))
+            if r.returncode not in (0, 1) or len(digs) != n:
+                mons.append("MONITOR C18-harness-crash exit=%d" % r.returncode)
+            if wrong:
+                mons.append("MONITOR C18-result-differs-from-solo-run threads=%s" % wrong[:6])
+            if mons and not found:
+                found = True
+                chk.violation("%s with %d threads" % (mons[0].split()[1], n),
+                              {"kind": "history", "args": [str(n), str(seed)], "monitor": mons[:4],
+                               "note": "drv_threads race <threads> <seed> <statics>: thread k runs workload (seed,k) as its first use of the library; "
+                                       "digests must equal `drv_threads ref <seed> <k>`", "broken_obligations": [f[0] for f in lean_failed]},
+                              match={"monitor": mons[0].split()[1]})
+    multi = {c: v for c, v in bindings.items() if len(v) > 1}
+    chk.oblige("threaded correspondence: every thread's results equal its solo run; no static datum but dispatch cells changed", not found, "runs=%d" % nrun)
+    chk.oblige("every dispatch cell was bound to one and the same target in all runs", not multi, str(list(multi.items())[:2]))
+    if multi and not found:
+        found = True
+        chk.violation("dispatch cell bound to different targets in different runs", {"kind": "history", "args": [str(nthreads[-1]), str(chk.seed)], "cells": {k: sorted(v) for k, v in multi.items()}}, match={"monitor": "C18-binding-differs"})
+    if replay:
+        return 1 if found else 0
+    if lean_failed and not found:
+        for name, detail in lean_failed:
+            chk.violation("Lean obligation no longer checks: %s" % name, {"kind": "obligation", "obligation": name, "detail": detail,
+                                                                          "static_stores": rep.get("static_stores", [])[-3:]}, no_input=True)
+    chk.cov["evaluations"] = nrun
+    chk.cov["distinct_nontrivial"] = len(bindings)
+    chk.cov["dispatch_cells_bound_during_runs"] = len(bindings)
+    chk.cov["writable_regions_snapshotted"] = len(regions)
+    chk.cov["cells_straddling_a_cache_line_in_this_link"] = straddle
+    chk.trusted = ["Lean 4.33.0 kernel; axioms allowed: propext, Classical.choice, Quot.sound",
+                   "translators tools/gen_x86abs.py (static stores, writable symbols) and tools/gen_dispatch.py (resolvers, stub shape)",
+                   "atomicity of the aligned 8-byte load/store of a dispatch cell (the cells are only 4-byte aligned by their section; no cell of the harness link straddles a cache line: checked each run)",
+                   "writes through a pointer to static data are outside the static clause (addresses of writable-section symbols are taken only for constant tables; list in the X86Abs report) and are covered dynamically by the section snapshots",
+                   "non-interference on distinct objects is established by correspondence (threaded runs against solo runs), the models being pure functions of the objects they are given"]
+    chk.assumptions = ["distinct objects per thread (API contract)", "x86-64 memory model"]
+    return chk.finish(level="proof", rule="threads in {2,8,32} (thorough: up to 64) x rounds, every round a fresh process in which all first calls race; per thread one workload over all "
+                      "public families on its own objects, digest compared with a solo run of the same workload; all writable input sections of library objects snapshotted before/after")
+
+
+CHECKS = {"C18": check_c18, "C19": check_c19, "C13": check_wrap, "C16": check_wrap, "C17": check_c17, "C01": check_hash, "C06": check_hash, "C11": check_hash, "C15": check_c15, "C12": check_c12, "C09": check_c09, "C20": check_c20, "C08": check_c08, "C14": check_c14, "C05": check_mh, "C10": check_mh,
           "C02": check_aes, "C03": check_aes, "C04": check_aes, "C07": check_aes}
 
 
@@ -1069,6 +1211,8 @@ def main():
     if a.pid not in CHECKS:
         print("unknown property", a.pid)
         return 2
+    if a.replay:
+        os.environ["VERIF_REPLAYING"] = "1"     # keep the replay files of earlier runs (the one being replayed among them)
     try:
         return CHECKS[a.pid](a.pid, a.tier, a.replay)
     except Exception as e:  # machinery failure: report, do not pretend the property held
